@@ -120,6 +120,26 @@ def explore(res, tier, seed, model_ok=True):
             idxs.append(len(scs)); scs.append(Scenario(reads(chunks) + [('wait', 1, ('eof',))], {}, prate=0))
             exh += 1
         groups.append((hs + body, idxs))
+    # the same with permessage-deflate negotiated: ALL cut sets of a compressed message followed by a ping
+    base = Scenario([], prate=0)
+    hz = base.good_reply(b'Sec-WebSocket-Extensions: permessage-deflate\r\n')
+    zbody = (gen_core.server_frame(1, bytes.fromhex('f248cdc9c90700'), rsv1=1) + gen_core.server_frame(9, b''))[:maxn]
+    idxs = []
+    for mask in range(1 << (len(zbody) - 1)):
+        cuts = [k + 1 for k in range(len(zbody) - 1) if mask >> k & 1]
+        idxs.append(len(scs)); scs.append(Scenario(reads([hz] + cut(zbody, cuts)) + [('wait', 1, ('eof',))], {}, prate=0, compress=True))
+        exh += 1
+    groups.append((hz + zbody, idxs))
+    # every single cut and every pair of adjacent cuts INSIDE the HTTP reply (status line, header names, the CRLFCRLF), frames following
+    for hs_, cmp_ in ((base.good_reply(b'Sec-WebSocket-Protocol: chat\r\n'), False), (hz, True)):
+        tail = gen_core.server_frame(1, 'caf\u00e9'.encode('utf-8')) + gen_core.server_frame(2, b'\x00\x01')
+        data = hs_ + tail
+        idxs = []
+        for c in range(1, len(hs_) + 3):
+            idxs.append(len(scs)); scs.append(Scenario(reads([data[:c], data[c:]]) + [('wait', 1, ('eof',))], {}, prate=0, compress=cmp_))
+            idxs.append(len(scs)); scs.append(Scenario(reads([data[:c], data[c:c + 1], data[c + 1:]]) + [('wait', 1, ('eof',))], {}, prate=0, compress=cmp_))
+        groups.append((data, idxs))
+        res.count('cuts_inside_http_reply', len(idxs))
     res.exhaustive['cut_sets_of_short_streams'] = exh
     pairs = coreutil.run_pairs(scs, model_ok)
     for js, line, real, model in pairs:
